@@ -215,7 +215,17 @@ pub fn install_graph(sim: &Sim, gr: &Graph, seen: &Arc<Mutex<Seen>>) {
                     let host = host.clone();
                     Box::new(HttpPeer::new(
                         Arc::new(move |r, _c| {
-                            let url = if port == 80 { format!("http://{}{}", host, r.target) } else { format!("http://{}:{}{}", host, port, r.target) };
+                            // route by the Host field (the same listener serves its name and its IP literal)
+                            let url = match r.header_str("host") {
+                                Some(h) if !h.is_empty() => format!("http://{}{}", h.to_ascii_lowercase(), r.target),
+                                _ => {
+                                    if port == 80 {
+                                        format!("http://{}{}", host, r.target)
+                                    } else {
+                                        format!("http://{}:{}{}", host, port, r.target)
+                                    }
+                                }
+                            };
                             match nodes.iter().find(|n| n.url == url) {
                                 Some(n) => node_response(n),
                                 None => {
@@ -235,6 +245,9 @@ pub fn install_graph(sim: &Sim, gr: &Graph, seen: &Arc<Mutex<Seen>>) {
 }
 
 pub fn ip_of(host: &str) -> String {
+    if host.parse::<IpAddr>().is_ok() {
+        return host.to_string();
+    }
     HOSTS.iter().find(|(h, _)| *h == host).map(|(_, ip)| ip.to_string()).unwrap_or_default()
 }
 
